@@ -118,7 +118,7 @@ OutOfContract(c) ==
     /\ taint' = taint \cup {c.i}
     /\ ooc' = IF Len(ooc) < 5 THEN Append(ooc, l + 1) ELSE ooc   \* keeps the verdict on one line
     /\ l' = l + 1
-    /\ UNCHANGED <<tid, st, insync>>
+    /\ UNCHANGED <<tid, st, insync, mtaint>>
 
 (* del_map is not among the operations C14 speaks about (today it is a lookup that
    keeps the mapping; a store that really deleted the mapping would be as good): its
